@@ -1,5 +1,7 @@
 import RosuModel.Model.Aggregate
 import RosuModel.Model.StrainsWire
+import RosuModel.Model.EvalCalc
+import RosuModel.Model.PerfCalcWire
 
 /-
 Driver glue for C16: the *model side* of "re-aggregating the exported strain peaks reproduces the
@@ -26,6 +28,13 @@ computes the argument `x` itself and checks **in exact integer arithmetic** that
 correctly rounded cube root of `x` (`((c⁻ + c)/2)³ ≤ x ≤ ((c + c⁺)/2)³`), answers `cbrt-exact`
 (or `cbrt-faithful` when only `(c⁻)³ < x < (c⁺)³`, `cbrt-BAD` otherwise) and continues with `c`.
 Lean `Float` appears here and nowhere in a theorem.
+
+Since the PP workstream (round 2) the final formulas are no longer written here: this file calls the
+generic definitions of `Model/EvalCalc.lean` (`PerfCalc.osuRating`, `osuSliderFactor`, `osuAdjustRatings`,
+`osuBasePerformance`, `osuStarArg`, `osuStarRatingFrom`, `taikoEval`, `taikoComb`, `taikoCombinedRating`,
+`catchStars`, `maniaStars`) at the `Float` instance of `PPOps` — the definitions `Props/C09c.lean` proves
+sign / side-condition theorems about over ℝ.  Only the aggregation of the peaks (C16's subject) and
+`count_top_weighted_strains` stay local.
 -/
 namespace Rosu.StarsWire
 open Rosu.Wire Rosu.SV Rosu.Skill Rosu.Agg Rosu.StrainsWire
@@ -56,14 +65,11 @@ def osuDV (k : Nat) (peaks : List Nat) : Float :=
 
 /-! ### catch, mania -/
 
-def catchStars (movement : List Nat) : Float := Float.sqrt (genericDV 0.94 movement) * 4.59
+def catchStars (movement : List Nat) : Float := PerfCalc.catchStars (genericDV 0.94 movement)
 
-def maniaStars (strains : List Nat) : Float := genericDV 0.9 strains * 0.018
+def maniaStars (strains : List Nat) : Float := PerfCalc.maniaStars (genericDV 0.9 strains)
 
 /-! ### osu! -/
-
-/-- `osu::difficulty::skills::strain::difficulty_to_performance` -/
-def osuD2P (d : Float) : Float := Float.pow (5.0 * fmax 1.0 (d / 0.0675) - 4.0) 3.0 / 100000.0
 
 /-! exact dyadic values of positive finite doubles -/
 
@@ -112,48 +118,28 @@ structure OsuOut where
   stars : Float
   cbrtQ : Nat
 
-/-- `osu::difficulty::DifficultyValues::eval` (the parts that depend on strain peaks) -/
+/-- `osu::difficulty::DifficultyValues::eval` (the parts that depend on strain peaks): the generic
+formulas of `Model/EvalCalc.lean` at `Float`; the one non-constant `cbrt` is replaced by the checked hint -/
 def osuEval (sum0 : Nat) (td rx ap fl : Bool) (aim aimNoSliders speed flashlight : List Nat)
     (cbrtHint : Nat) : OsuOut :=
-  let mult : Float := 0.0675
-  let aimRating := Float.sqrt (osuDV 10 aim) * mult
-  let aimNoSl := Float.sqrt (osuDV 10 aimNoSliders) * mult
-  let sliderFactor := if aimRating > 0.0 then aimNoSl / aimRating else 1.0
-  let speedRating := Float.sqrt (osuDV 5 speed) * mult
-  let flRating := Float.sqrt (fOf (flashlightValue floatOps sum0 flashlight)) * mult
-  let (aimRating, flRating) := if td then (Float.pow aimRating 0.8, Float.pow flRating 0.8) else (aimRating, flRating)
-  let (aimRating, speedRating, flRating) :=
-    if rx then (aimRating * 0.9, 0.0, flRating * 0.7)
-    else if ap then (0.0, speedRating * 0.5, flRating * 0.4)
-    else (aimRating, speedRating, flRating)
-  let pa := osuD2P aimRating
-  let ps := osuD2P speedRating
-  let pf := if fl then 25.0 * Float.pow flRating 2.0 else 0.0
-  let base := Float.pow (Float.pow pa 1.1 + Float.pow ps 1.1 + Float.pow pf 1.1) (1.0 / 1.1)
-  let x := 100000.0 / Float.pow 2.0 (1.0 / 1.1) * base
+  let m : PerfCalc.OsuEvalMods := { td := td, rx := rx, ap := ap, fl := fl }
+  let aimDV := osuDV 10 aim
+  let aimNsDV := osuDV 10 aimNoSliders
+  let speedDV := osuDV 5 speed
+  let flDV := fOf (flashlightValue floatOps sum0 flashlight)
+  -- every field except `stars` straight from the definition the theorems are about
+  let e := PerfCalc.osuEval m aimDV aimNsDV speedDV flDV
+  let base := PerfCalc.osuBasePerformance m e.aim e.speed e.flashlight
+  let x := PerfCalc.osuStarArg base
   let q := if base > 0.00001 then cbrtQuality (b x) cbrtHint else 2
-  let stars := if base > 0.00001 then Float.cbrt 1.15 * 0.027 * (fOf cbrtHint + 4.0) else 0.0
-  ⟨aimRating, speedRating, flRating, sliderFactor, stars, q⟩
+  let stars := PerfCalc.osuStarRatingFrom base (fOf cbrtHint)
+  ⟨e.aim, e.speed, e.flashlight, e.sliderFactor, stars, q⟩
 
 /-! ### taiko -/
 
-/-- `util::difficulty::norm(p, values)`: `values.map(|x| x.powf(p)).sum::<f64>().powf(p.recip())` -/
-def norm (sum0 : Float) (p : Float) (values : List Float) : Float :=
-  Float.pow (values.foldl (fun acc x => acc + Float.pow x p) sum0) (1.0 / p)
-
-def taikoMult : Float := 0.084375
-def rhythmMult : Float := 0.65 * taikoMult
-def readingMult : Float := 0.100 * taikoMult
-def colorMult : Float := 0.375 * taikoMult
-def staminaMult : Float := 0.445 * taikoMult
-
-/-- the loop body of `combined_difficulty_value` -/
+/-- the loop body of `combined_difficulty_value` on bit patterns: `PerfCalc.taikoComb` at `Float` -/
 def taikoComb (sum0 : Float) (rx conv : Bool) (patternMult lengthBonus : Float) (r rd c s : Nat) : Nat :=
-  let rhythm := fOf r * rhythmMult * patternMult
-  let reading := fOf rd * readingMult
-  let color := fOf c * (if rx then 0.0 else colorMult)
-  let stamina := fOf s * staminaMult * lengthBonus / (if conv || rx then 1.5 else 1.0)
-  b (norm sum0 2.0 [norm sum0 1.5 [color, stamina], rhythm, reading])
+  b (PerfCalc.taikoComb sum0 rx conv patternMult lengthBonus (fOf r) (fOf rd) (fOf c) (fOf s))
 
 /-- `any::difficulty::skills::count_top_weighted_strains` -/
 def countTopWeighted (sum0 : Float) (objectStrains : List Nat) (dv : Float) : Float :=
@@ -164,9 +150,6 @@ def countTopWeighted (sum0 : Float) (objectStrains : List Nat) (dv : Float) : Fl
     else objectStrains.foldl
       (fun acc s => acc + 1.1 / (1.0 + Float.exp (-10.0 * (fOf s / top - 0.88)))) sum0
 
-/-- `taiko::difficulty::rescale` -/
-def rescale (stars : Float) : Float := if stars < 0.0 then stars else 10.43 * Float.log (stars / 8.0 + 1.0)
-
 structure TaikoOut where
   rhythm : Float
   reading : Float
@@ -174,30 +157,27 @@ structure TaikoOut where
   stamina : Float
   monoStaminaFactor : Float
   stars : Float
+  /-- the aggregation over bit patterns (C16's `Agg.taikoCombined floatOps`) and the one over `Float`
+  values (`PerfCalc.taikoCombinedRating`, the definition `Props/C09c.lean` is about) gave the same bits -/
+  aggAgree : Bool
 
-/-- `taiko::difficulty::DifficultyValues::eval` -/
+/-- `taiko::difficulty::DifficultyValues::eval`: `PerfCalc.taikoEval` at `Float` -/
 def taikoEval (sum0 : Nat) (rx conv : Bool) (rhythm reading color stamina mono objectStrains : List Nat) :
     TaikoOut :=
   let s0 := fOf sum0
-  let rhythmDV := genericDV 0.9 rhythm
-  let readingDV := genericDV 0.9 reading
-  let colorDV := genericDV 0.9 color
   let staminaDV := genericDV 0.9 stamina
-  let rhythmRating := rhythmDV * rhythmMult
-  let readingRating := readingDV * readingMult
-  let colorRating := colorDV * colorMult
-  let staminaRating := staminaDV * staminaMult
-  let monoRating := genericDV 0.9 mono * staminaMult
-  let monoFactor :=
-    if staminaRating.abs ≥ 2.220446049250313e-16 then Float.pow (monoRating / staminaRating) 5.0 else 1.0
-  let difficultStrains := countTopWeighted s0 objectStrains staminaDV
-  let patternMult := Float.pow (staminaRating * colorRating) 0.10
-  let lengthBonus :=
-    1.0 + fmin (fmax ((difficultStrains - 1000.0) / 3700.0) 0.0) 0.15
-      + fmin (fmax ((staminaRating - 7.0) / 1.0) 0.0) 0.05
-  let combined := fOf (taikoCombined floatOps (taikoComb s0 rx conv patternMult lengthBonus) (b 0.9)
-    rhythm reading color stamina)
-  ⟨rhythmRating, readingRating, colorRating, staminaRating, monoFactor, rescale (combined * 1.4)⟩
+  let i : PerfCalc.TaikoEvalIn Float :=
+    { rhythmDV := genericDV 0.9 rhythm, readingDV := genericDV 0.9 reading, colorDV := genericDV 0.9 color,
+      staminaDV := staminaDV, monoStaminaDV := genericDV 0.9 mono,
+      staminaDifficultStrains := countTopWeighted s0 objectStrains staminaDV }
+  let combineBits : Float → Float → Float := fun pm slb =>
+    fOf (taikoCombined floatOps (taikoComb s0 rx conv pm slb) (b 0.9) rhythm reading color stamina)
+  let combineVals : Float → Float → Float := fun pm slb =>
+    PerfCalc.taikoCombinedRating s0 rx conv (rhythm.map fOf) (reading.map fOf) (color.map fOf)
+      (stamina.map fOf) pm slb
+  let o := PerfCalc.taikoEval i combineBits
+  let o' := PerfCalc.taikoEval i combineVals
+  ⟨o.rhythm, o.reading, o.color, o.stamina, o.monoStaminaFactor, o.stars, b o.stars == b o'.stars⟩
 
 /-! ### request handler -/
 
@@ -219,7 +199,7 @@ def handleSTARS (args : List String) : String :=
   | ["t", sum0, flags, rhythm, reading, color, stamina, mono, objs] =>
     let o := taikoEval (hexToNat sum0) (flag flags 0) (flag flags 1) (hexList rhythm) (hexList reading)
       (hexList color) (hexList stamina) (hexList mono) (hexList objs)
-    s!"R{showZ o.rhythm} D{showZ o.reading} C{showZ o.color} T{showZ o.stamina} M{showZ o.monoStaminaFactor} S{showZ o.stars}"
+    s!"R{showZ o.rhythm} D{showZ o.reading} C{showZ o.color} T{showZ o.stamina} M{showZ o.monoStaminaFactor} S{showZ o.stars}{if o.aggAgree then "" else " agg-MISMATCH"}"
   | _ => "bad-stars"
 
 end Rosu.StarsWire
